@@ -22,6 +22,7 @@ import (
 	"github.com/trustbloc/sidetree-core-go/pkg/observer"
 	"github.com/trustbloc/sidetree-core-go/pkg/processor"
 	restdoc "github.com/trustbloc/sidetree-core-go/pkg/restapi/dochandler"
+	"github.com/trustbloc/sidetree-core-go/pkg/versions/1_0/doctransformer/didtransformer"
 	"github.com/trustbloc/sidetree-core-go/pkg/versions/1_0/txnprocessor"
 	"github.com/trustbloc/sidetree-core-go/pkg/versions/1_0/txnprovider"
 
@@ -44,6 +45,10 @@ type pipeLedger struct {
 	refsOf  map[string][]*operation.Reference
 	failing func() bool // fault injection: true = this WriteAnchor call fails (called without the ledger lock)
 	altSources []string // stamped on every transaction (nodes that hold the batch files)
+	// fault: the operation store fails while a notification is processed (storeFault arms it and says so; afterFailedDelivery
+	// disarms it and judges the node before the transactions are delivered again)
+	storeFault           func() bool
+	afterFailedDelivery  func()
 	junk    func(next txn.SidetreeTxn) *txn.SidetreeTxn // fault injection: an unprocessable transaction delivered just before `next`
 }
 
@@ -91,6 +96,13 @@ func (l *pipeLedger) observe() {
 	}
 	l.mu.Unlock()
 	if len(p) > 0 {
+		if l.storeFault != nil && l.storeFault() {
+			// the operation store refuses every write while this notification is processed; the node is then judged, and the
+			// ledger delivers the same transactions again (a node that re-reads the ledger)
+			l.ch <- p
+			l.ch <- nil
+			l.afterFailedDelivery()
+		}
 		l.ch <- p
 	}
 	l.ch <- nil
@@ -153,6 +165,14 @@ type pipeDID struct {
 	createRe *document.ResolutionResult
 	longForm string
 	created  bool
+	// results already handed to a client, with their serialization at that moment: they never change afterwards
+	handed []handedResult
+}
+
+type handedResult struct {
+	what string
+	res  *document.ResolutionResult
+	snap string
 }
 
 type pipeline struct {
@@ -174,6 +194,7 @@ type pipeline struct {
 	aliases  []string
 	label    string
 	rawTimes bool // direct submissions name the protocol version by the current ledger time instead of its genesis time
+	projOpts ref.ProjOpts // how the DID transformer of this node is configured (method contexts, @base)
 }
 
 // pipeFix pins the otherwise PRNG-chosen batch sizes and ledger clock steps (scripted scenarios).
@@ -233,10 +254,21 @@ func newPipeline(r *hx.Rng, twoVers, useUnpub, concurrent bool, fix ...*pipeFix)
 		provOpts = []txnprovider.Opt{txnprovider.WithSourceCASURIFormatter(func(uri, source string) (string, error) { return source + "|" + uri, nil })}
 		pl.ledger.altSources = []string{"unreachable-node", "remote"}
 	}
-	v0 := hx.NewVersion(pl.p0, hx.VersionOpts{CAS: vcas, Store: pl.store, TxnProcOpts: tpo, ProviderOpts: provOpts})
+	// transformer configuration of the node: none, two method contexts, or four method contexts and @base
+	var tro []didtransformer.Option
+	switch r.Split("transformer").Intn(3) {
+	case 1:
+		pl.projOpts = ref.ProjOpts{MethodCtx: []string{"https://method.example/ctx/v1", "https://method.example/ctx/v2"}}
+	case 2:
+		pl.projOpts = ref.ProjOpts{Base: true, MethodCtx: []string{"https://m.example/1", "https://m.example/2", "https://m.example/3", "https://m.example/4"}}
+	}
+	if len(pl.projOpts.MethodCtx) > 0 {
+		tro = append(tro, didtransformer.WithMethodContext(pl.projOpts.MethodCtx), didtransformer.WithBase(pl.projOpts.Base))
+	}
+	v0 := hx.NewVersion(pl.p0, hx.VersionOpts{CAS: vcas, Store: pl.store, TxnProcOpts: tpo, ProviderOpts: provOpts, TransfOpts: tro})
 	vs := []protocol.Version{v0}
 	if twoVers {
-		vs = append(vs, hx.NewVersion(pl.p1, hx.VersionOpts{CAS: vcas, Store: pl.store, TxnProcOpts: tpo, ProviderOpts: provOpts}))
+		vs = append(vs, hx.NewVersion(pl.p1, hx.VersionOpts{CAS: vcas, Store: pl.store, TxnProcOpts: tpo, ProviderOpts: provOpts, TransfOpts: tro}))
 	}
 	pl.pc = &timeClient{vs: vs, now: pl.ledger.Now}
 	var popts []processor.Option
@@ -318,7 +350,7 @@ func docContent(res *document.ResolutionResult, _ string) string {
 }
 
 func checkC20(c *hx.Ctx) {
-	c.Rule("full pipeline of REAL components: DocumentHandler (partly through the REST update handler) -> batch.Writer (step hook) -> OperationHandler -> in-memory CAS -> ledger -> Observer goroutine -> TxnProcessor -> operation store -> OperationProcessor -> DID transformer. Runs: 2-6 DIDs, 5-40 interleaved client-built operations (create from document or patches, update, recover, deactivate; several operations of one DID inside one batch -> deferral), PRNG-chosen flush (monitor / timeout tick) and observation points, one or two protocol versions (genesis 0 and 500; the second disables ietf-json-patch and has another time delta and batch size) with ledger time crossing the boundary, with and without unpublished-operation store; every second sequential run injects faults: the batch writer's queue refuses a PRNG-chosen submission (the operation must be reported as failed and leave no trace), one CAS write or the anchor write of a batch fails (the batch is rolled back and retried later), half of the time with another operation accepted between the cut and the roll-back; at every quiescent point each DID is resolved through ResolveDocument and compared with the reference state machine applied to its ACCEPTED operations in anchoring order under the version in force at acceptance, projected with the independent DID projection; create response, long-form resolution before anchoring and short-form resolution after anchoring must have the same content; at the end a bounded drain must anchor every accepted operation; a concurrent slice (submitters and resolvers in goroutines, writer and observer on tickers) is judged at quiescence; race detector on. non-trivial = run in which >= 3 operations of one DID were applied; distinct = distinct run shapes")
+	c.Rule("full pipeline of REAL components: DocumentHandler (partly through the REST update handler) -> batch.Writer (step hook) -> OperationHandler -> in-memory CAS -> ledger -> Observer goroutine -> TxnProcessor -> operation store -> OperationProcessor -> DID transformer. Runs: 2-6 DIDs, 5-40 interleaved client-built operations (create from document or patches, update, recover, deactivate; several operations of one DID inside one batch -> deferral), PRNG-chosen flush (monitor / timeout tick) and observation points, one or two protocol versions (genesis 0 and 500; the second disables ietf-json-patch and has another time delta and batch size) with ledger time crossing the boundary, with and without unpublished-operation store; every second sequential run injects faults: the batch writer's queue refuses a PRNG-chosen submission (the operation must be reported as failed and leave no trace), one CAS write or the anchor write of a batch fails (the batch is rolled back and retried later), the operation store fails while a notification is processed (with an unpublished-operation store every accepted operation stays resolvable until the ledger delivers the transactions again), half of the time with another operation accepted between the cut and the roll-back; at every quiescent point each DID is resolved through ResolveDocument and compared with the reference state machine applied to its ACCEPTED operations in anchoring order under the version in force at acceptance, projected with the independent DID projection; create response, long-form resolution before anchoring and short-form resolution after anchoring must have the same content; at the end a bounded drain must anchor every accepted operation; a concurrent slice (submitters and resolvers in goroutines, writer and observer on tickers) is judged at quiescence; race detector on. non-trivial = run in which >= 3 operations of one DID were applied; distinct = distinct run shapes")
 	c.Set("race_detector_enabled", raceEnabled)
 	nRuns := c.N(90, 3000)
 	root := c.Rng("runs")
@@ -584,6 +616,9 @@ func runPipeline(c *hx.Ctx, r *hx.Rng, ri int, twoVers, useUnpub, concurrent boo
 				fail("create returned no resolution result", nil)
 				return false
 			}
+			amu.Lock()
+			pd.handed = append(pd.handed, handedResult{"create response", res, string(ref.MustJCS(roundTrip(res)))}, handedResult{"long-form resolution before anchoring", longRes, string(ref.MustJCS(roundTrip(longRes)))})
+			amu.Unlock()
 			if a, bb := docContent(res, pd.did), docContent(longRes, pd.longForm); a != bb {
 				fail("create response and long-form resolution before anchoring differ in content\n   create:    "+trunc600(a)+"\n   long-form: "+trunc600(bb), map[string]interface{}{"did": pd.did})
 				return false
@@ -621,8 +656,13 @@ func runPipeline(c *hx.Ctx, r *hx.Rng, ri int, twoVers, useUnpub, concurrent boo
 		}
 	}
 	// compareAll: every DID against the model (quiescent point)
+	light := false // set while the node is judged between a failed and the repeated delivery of a notification: content only
 	compareAll := func(final bool) bool {
-		syncAnchored()
+		if !light {
+			// (between a failed and the repeated delivery the transactions are on the ledger but not in the store: their
+			// operations are still what they were before - accepted, unpublished)
+			syncAnchored()
+		}
 		for di, pd := range dids {
 			if pd == nil {
 				continue
@@ -644,6 +684,17 @@ func runPipeline(c *hx.Ctx, r *hx.Rng, ri int, twoVers, useUnpub, concurrent boo
 			st, merr := ref.Resolve(visible, ref.ResolveOpts{})
 			res, err := pl.dh.ResolveDocument(pd.did)
 			c.Count("resolutions_compared")
+			// whatever was handed out earlier (create response, long-form result, earlier resolutions of any DID) is still what it was
+			for _, h := range pd.handed {
+				if now := string(ref.MustJCS(roundTrip(h.res))); now != h.snap {
+					fail(fmt.Sprintf("did%d: a result handed out earlier (%s) changed after later transformations\n   then: %s\n   now:  %s", di, h.what, trunc600(h.snap), trunc600(now)), map[string]interface{}{"did": pd.did})
+					return false
+				}
+				c.Count("handed_out_results_rechecked")
+			}
+			if err == nil && res != nil && len(pd.handed) < 12 {
+				pd.handed = append(pd.handed, handedResult{"resolution at an earlier quiescent point", res, string(ref.MustJCS(roundTrip(res)))})
+			}
 			extra := map[string]interface{}{"did": pd.did, "history": replayOps(visible)}
 			if (merr == nil) != (err == nil) {
 				fail(fmt.Sprintf("did%d: ResolveDocument err=%v, reference model err=%v (history %s)", di, err, merr, histString(visible)), extra)
@@ -652,7 +703,7 @@ func runPipeline(c *hx.Ctx, r *hx.Rng, ri int, twoVers, useUnpub, concurrent boo
 			if err != nil {
 				continue
 			}
-			want, perr := ref.ProjectDoc(ref.NormalizeDoc(st.Doc), pd.did, ref.ProjOpts{})
+			want, perr := ref.ProjectDoc(ref.NormalizeDoc(st.Doc), pd.did, pl.projOpts)
 			if perr != nil {
 				continue
 			}
@@ -684,21 +735,21 @@ func runPipeline(c *hx.Ctx, r *hx.Rng, ri int, twoVers, useUnpub, concurrent boo
 				fail(fmt.Sprintf("did%d resolves with commitments/deactivation (%s, %s, %v), reference state has (%s, %s, %v) (history %s)", di, uc, rc, deact, st.UpdateCommitment, st.RecoveryCommitment, st.Deactivated, histString(visible)), extra)
 				return false
 			}
-			if pendingUnpub == 0 {
+			if pendingUnpub == 0 && !light {
 				// full metadata comparison
 				canonical := hx.Namespace + ":" + st.CanonicalRef + ":" + pd.d.Suffix
 				eqRef := strings.Replace(st.CanonicalRef, "txn", "eq", 1)
 				mi := ref.MetaIn{UpdateCommitment: st.UpdateCommitment, RecoveryCommitment: st.RecoveryCommitment, AnchorOrigin: st.AnchorOrigin, Deactivated: st.Deactivated,
 					Published: true, VersionID: st.VersionID, CreatedTime: st.CreatedTime, UpdatedTime: st.UpdatedTime, CanonicalID: canonical,
 					EquivalentID: []interface{}{canonical, hx.Namespace + ":" + eqRef + ":" + pd.d.Suffix}}
-				if why := compareProjection(res, ref.NormalizeDoc(st.Doc), pd.did, ref.ProjOpts{}, mi, 0, 0); why != "" && !strings.HasPrefix(why, "skip:") {
+				if why := compareProjection(res, ref.NormalizeDoc(st.Doc), pd.did, pl.projOpts, mi, 0, 0); why != "" && !strings.HasPrefix(why, "skip:") {
 					extra["result"] = roundTrip(res)
 					fail(fmt.Sprintf("did%d: %s (history %s)", di, why, histString(visible)), extra)
 					return false
 				}
 			}
 			// create triple: short form after anchoring of the create only
-			if len(visible) == 1 && visible[0].Ref != "" && pd.createRe != nil && !pd.created {
+			if len(visible) == 1 && visible[0].Ref != "" && pd.createRe != nil && !pd.created && !light {
 				pd.created = true
 				a, b := docContent(pd.createRe, pd.did), docContent(res, pd.did)
 				if a != b {
@@ -755,6 +806,28 @@ func runPipeline(c *hx.Ctx, r *hx.Rng, ri int, twoVers, useUnpub, concurrent boo
 				return &j
 			}
 		}
+		if faults && pl.useUnpub {
+			// the operation store fails while a notification is processed: with an unpublished-operation store every accepted
+			// operation stays resolvable (content and commitments as if it had been stored) until the ledger delivers it again
+			sr := r.Split("store-fault")
+			pl.ledger.storeFault = func() bool {
+				if !sr.Chance(1, 3) {
+					return false
+				}
+				pl.store.PutErr = func(int, []*operation.AnchoredOperation) error { return fmt.Errorf("injected operation store failure") }
+				c.Count("fault:operation_store_put_failed")
+				return true
+			}
+			pl.ledger.afterFailedDelivery = func() {
+				pl.store.PutErr = nil
+				note("operation store failed during a notification")
+				light = true
+				if ok && !compareAll(false) {
+					ok = false
+				}
+				light = false
+			}
+		}
 		pl.cas.WriteErr = func(int, []byte) error {
 			if fire("cas_write") {
 				return fmt.Errorf("injected CAS write failure")
@@ -788,7 +861,7 @@ func runPipeline(c *hx.Ctx, r *hx.Rng, ri int, twoVers, useUnpub, concurrent boo
 				if r.Chance(2, 3) {
 					pl.ledger.observe()
 					note("observed")
-					if !compareAll(false) {
+					if !ok || !compareAll(false) {
 						return
 					}
 				}
@@ -809,6 +882,9 @@ func runPipeline(c *hx.Ctx, r *hx.Rng, ri int, twoVers, useUnpub, concurrent boo
 			return
 		}
 		pl.ledger.observe()
+		if !ok {
+			return
+		}
 		// with an unpublished store every anchored op must have been removed from it
 		if pl.useUnpub && pl.unpub.Len() != 0 {
 			fail(fmt.Sprintf("%d operations remain in the unpublished-operation store after everything was anchored and observed", pl.unpub.Len()), nil)
